@@ -103,16 +103,20 @@ def cases(tier):
                 yield ('conf-order', ss, cs, failing)
 
 
-def _mk_seam(w, seam, probes):
+def _mk_seam(w, seam, probes, probes_act=None):
+    probes_act = probes_act if probes_act is not None else []
     def on_call(rec):
         nm = rec['name']
+        if nm == 'atc':
+            # the action to check of a case that sets no stdin: what it is given on stdin must not come from a source shared by the cases
+            probes_act.append((rec['args'][1:], rec['stdin']))
         if nm == 'probe':
             sds = os.path.dirname(rec['cwd']) if os.path.basename(rec['cwd']) == 'act' else None
             sbs = w.sandboxes()
             root = os.path.join(str(w.sb), sbs[0]) if len(sbs) == 1 else None
             o = {'name': rec['args'][1], 'cwd': os.path.relpath(rec['cwd'], root) if root else rec['cwd'],
                  'env': rec['env'] if rec['env'] is not None else {k_: os.environ[k_] for k_ in ('V1', 'V2', 'Y') if k_ in os.environ},
-                 'timeout': rec['timeout'], 'nsandboxes': len(sbs)}
+                 'timeout': rec['timeout'], 'nsandboxes': len(sbs), 'stdin': rec['stdin']}
             if root:
                 for d in ('act', 'tmp'):
                     try:
@@ -188,7 +192,8 @@ def run(case) -> Result:
 def _hist(res, case, w, seam, mp):
     seq = case[1]
     probes = []
-    _mk_seam(w, seam, probes)
+    acts = []
+    _mk_seam(w, seam, probes, acts)
     names = []
     for i, ki in enumerate(seq):
         nm = 'c%d-%s.case' % (i, KINDS[ki])
@@ -207,6 +212,10 @@ def _hist(res, case, w, seam, mp):
         errs.append('probes %s, cases %s' % ([p['name'] for p in probes], names))
     for p in probes:
         errs += check_probe(p)
+    for args_, stdin_ in acts:
+        if (stdin_ or '') != '':
+            errs.append('the action to check of %s (no stdin set by the case) was given %r on stdin: the standard input of the exactly process, shared by all '
+                        'cases of the run' % (args_, stdin_[:60]))
     prev = ('init',)
     for p, ki in zip(probes, seq):
         st = (p['cwd'], tuple(sorted((p['env'] or {}).items())), p['timeout'], tuple(p.get('act') or ()), tuple(p.get('tmp') or ()), p.get('process_cwd_ok'))
